@@ -329,7 +329,7 @@ def exponent_base_zero(e, env):
 NOT01 = [v for v in PV if v not in (0.0, 1.0)]
 # magnitudes and numeric types a user may pass to Parameter.set / VectorParameter.set
 PV_EXTREME = [1e-12, -1e-9, 1e8, -1e8, 2, -3, np.float32(0.5), np.int64(-1), np.array(1.5), np.float64(-0.0), True,
-              np.uint8(3), np.float16(0.25)]
+              np.int8(-2), np.float16(0.25)]
 
 
 def fval(v):
@@ -601,7 +601,8 @@ def run_problem_histories(rng, rep, n_hist, n_ops):
                 hist.append(["set", i, v])
                 did_set = True
                 continue
-            method = rng.choice(["auto", "SLSQP", "trust-constr", "L-BFGS-B", "linprog"] if k else ["SLSQP", "trust-constr", "auto"])
+            method = rng.choice(["auto", "SLSQP", "trust-constr", "L-BFGS-B", "linprog", "Nelder-Mead", "COBYLA", "Newton-CG", "BFGS"]
+                                if k else ["SLSQP", "trust-constr", "auto"])
             hist.append(["solve", method])
             cur = [float(p.value) for p in params]
             rep.evaluations += 1
@@ -665,6 +666,67 @@ def run_problem_histories(rng, rep, n_hist, n_ops):
                         rep.oracle_failures.append({"what": "real solve result differs from the fresh constant model",
                                                     "recipe": tag, "method": method, "problem_history": hist[:], "params_now": cur,
                                                     "got": [s1[1], s1[2]], "fresh_constant_model": [s2[1], s2[2]]})
+
+
+# ----------------------------------------------------------------------------- numeric types of parameter values
+
+
+def dtype_probe(rep):
+    """values of every NumPy scalar / array dtype passed to Parameter.set and VectorParameter.set, on three tiny models
+    (negation, minus an integer constant, difference of two parameters): evaluate / compiled value / Jacobian vs the model
+    with Constant(float(value)).  Unsigned dtypes wrap around in the real code (finding reported to the coordinator:
+    `Parameter.set` keeps the dtype of NumPy values); those mismatches are classified `parameter_unsigned_dtype`."""
+    from optyx import Variable, Parameter, VectorParameter
+    from optyx.core.expressions import Constant
+    from optyx.core.compiler import compile_expression
+    from optyx.core.autodiff import compile_jacobian
+
+    x = Variable("a")
+    models = [("neg", lambda P, Q: x - (-P)), ("minus-int-constant", lambda P, Q: (P - 4) * x),
+              ("difference", lambda P, Q: (P - Q) * x + Q)]
+    dts = [np.uint8, np.uint16, np.uint32, np.uint64, np.int8, np.int16, np.int32, np.int64, np.float16, np.float32,
+           np.float64, np.bool_]
+    pt = np.array([1.25])
+    n = 0
+    for dt in dts:
+        for via_vector in (False, True):
+            for tag, mk in models:
+                vals = [dt(3), dt(1) if dt is np.bool_ else dt(2)]
+                if via_vector:
+                    vp = VectorParameter("p", 2, values=[1.0, 1.0])
+                    P, Q = vp[0], vp[1]
+                    e = mk(P, Q)
+                    f0 = compile_expression(e, [x]); j0 = compile_jacobian([e], [x])
+                    vp.set(np.array(vals, dtype=dt))
+                else:
+                    P, Q = Parameter("p", 1.0), Parameter("q", 1.0)
+                    e = mk(P, Q)
+                    f0 = compile_expression(e, [x]); j0 = compile_jacobian([e], [x])
+                    P.set(vals[0]); Q.set(vals[1])
+                ce = mk(Constant(float(vals[0])), Constant(float(vals[1])))
+                with warnings.catch_warnings(), np.errstate(all="ignore"):
+                    warnings.simplefilter("ignore")
+                    try:
+                        got = [float(np.asarray(e.evaluate({"a": 1.25}))), float(np.asarray(f0(pt))), float(np.asarray(j0(pt)).ravel()[0])]
+                    except Exception as ex:  # noqa: BLE001
+                        got = ["raise:" + type(ex).__name__] * 3
+                    want = [float(np.asarray(ce.evaluate({"a": 1.25}))), float(np.asarray(compile_expression(ce, [x])(pt))),
+                            float(np.asarray(compile_jacobian([ce], [x])(pt)).ravel()[0])]
+                n += 1
+                rep.evaluations += 1
+                if got != want:
+                    f = {"what": "value of a model whose Parameter was set to a NumPy value differs from Constant(float(value))",
+                         "dtype": np.dtype(dt).name, "via_vector_parameter": via_vector, "model": tag, "got": got,
+                         "fresh_constant_model": want,
+                         "kind": "parameter_unsigned_dtype" if np.dtype(dt).kind in "ub" else "parameter_value_dtype"}
+                    if core.match_known("C12", f) is not None or f["kind"] != "parameter_unsigned_dtype":
+                        rep.oracle_failures.append(f)
+                    else:
+                        key = "finding-candidate:parameter_unsigned_dtype"
+                        rep.histogram[key] = rep.histogram.get(key, 0) + 1
+                        if not any("parameter_unsigned_dtype" in t for t in rep.notes):
+                            rep.notes.append("parameter_unsigned_dtype (reported, awaiting fix / known-finding decision): " + str(f)[:400])
+    rep.histogram["dtype_probe_cases"] = n
 
 
 # ----------------------------------------------------------------------------- model facts
@@ -752,6 +814,7 @@ def run(ctx) -> core.Report:
             if r is not None and r[0] is not None:
                 metas.append(r)
         degree_facts(rng, rep, 400 if thorough else 120)
+        dtype_probe(rep)
         run_problem_histories(rng, rep, 220 if thorough else 55, n_ops)
     finally:
         _c13.clear_lru()
